@@ -101,7 +101,13 @@ pub fn make_site(root: &Path) {
 
 fn run_case(i: usize, case: &Value, obs: &str, out: &mut dyn FnMut(&Value)) {
     let bytes = render_doc(&case["doc"]);
-    let method = case["doc"].as_array().and_then(|d| d.first()).map(|t| if t["role"] == "method" && t["k"] == "s" { t["s"].as_str().unwrap_or("").to_string() } else { String::new() }).unwrap_or_default();
+    // the method as the server will read it: the first blank-delimited word of the rendered bytes (two mutations can cancel out:
+    // the method token duplicated and the first copy emptied renders the original request)
+    let method = {
+        let end = bytes.iter().position(|b| *b == b' ' || *b == b'\r' || *b == b'\n').unwrap_or(bytes.len());
+        let w = &bytes[..end];
+        if !w.is_empty() && w.iter().all(|b| b.is_ascii_uppercase()) { String::from_utf8_lossy(w).to_string() } else { String::new() }
+    };
     out(&json!({"ev":"Begin","i":i,"seed":case["seed"],"verdict":case["verdict"],"app":case["app"],"script":case["script"],
                 "method":method,"muts":case["muts"],"req_len":bytes.len()}));
     let (mut mock, wire) = Mock::new(bytes);
